@@ -1,6 +1,8 @@
 /-
-Helper lemmas about `Model/Prec.lean` used by `Props/C01.lean` (fuel monotonicity of the parser,
-the generalised round-trip statement).
+Helper lemmas about `Model/Prec.lean` used by `Props/C01.lean`: more fuel never changes a parse,
+and the generalised round-trip statement `roundtrip_gen` (proved by structural induction on the
+operator tree; the table enters only through `lp_pos`/`rp_pos`, so it holds for every table with
+positive priorities — in particular for whatever `translators/prec_table.py` generates next).
 -/
 import KotoVerif.Model.Prec
 
@@ -8,7 +10,221 @@ namespace KotoVerif.C01
 open KotoVerif.Prec KotoVerif.Gen
 
 /-- every operator has positive priorities (a fact about the generated table) -/
-theorem lp_pos : ∀ o : OpTok, 1 ≤ lp o := by decide
-theorem rp_pos : ∀ o : OpTok, 1 ≤ rp o := by decide
+theorem lp_pos (o : OpTok) : 1 ≤ lp o := by cases o <;> decide
+theorem rp_pos (o : OpTok) : 1 ≤ rp o := by cases o <;> decide
+
+/-! ### more fuel never changes a successful parse -/
+
+def Le1 (f g : List Tok → PResult) : Prop := ∀ ts r, f ts = some r → g ts = some r
+def Le2 (f g : Nat → List Tok → PResult) : Prop := ∀ m ts r, f m ts = some r → g m ts = some r
+def Le3 (f g : Nat → OpTree → List Tok → PResult) : Prop :=
+  ∀ m l ts r, f m l ts = some r → g m l ts = some r
+
+theorem termStep_mono {pT pT' pS pS'} (hT : Le1 pT pT') (hS : Le2 pS pS') :
+    Le1 (termStep pT pS) (termStep pT' pS') := by
+  intro ts r h
+  unfold termStep at h ⊢
+  split at h
+  · simpa using h
+  · simpa using h
+  · simpa using h
+  · split at h
+    · rename_i hh; simp [hT _ _ hh]; simpa using h
+    · simp at h
+  · split at h
+    · rename_i hh; simp [hS _ _ _ hh]; simpa using h
+    · simp at h
+  · split at h
+    · rename_i hh; simp [hS _ _ _ hh]; simpa using h
+    · simp at h
+  · simp at h
+
+theorem startStep_mono {pT pT' pC pC'} (hT : Le1 pT pT') (hC : Le3 pC pC') (m : Nat) :
+    Le1 (startStep pT pC m) (startStep pT' pC' m) := by
+  intro ts r h
+  unfold startStep at h ⊢
+  split at h
+  · rename_i hh; simp [hT _ _ hh]; exact hC _ _ _ _ h
+  · simp at h
+
+theorem contStep_mono {pS pS' pC pC'} (hS : Le2 pS pS') (hC : Le3 pC pC') (m : Nat) (l : OpTree) :
+    Le1 (contStep pS pC m l) (contStep pS' pC' m l) := by
+  intro ts r h
+  unfold contStep at h ⊢
+  split at h
+  · split at h
+    · split at h
+      · rename_i hh; simp [hS _ _ _ hh]; simpa using h
+      · simp at h
+    · simp at h
+  · split at h
+    · split at h
+      · rename_i hh; simp [*, hS _ _ _ hh]; exact hC _ _ _ _ h
+      · simp at h
+    · simp_all; intro hle; omega
+  · simp_all
+
+theorem parse_mono_succ : ∀ n,
+    Le1 (parseTerm n) (parseTerm (n + 1)) ∧ Le2 (parseStart n) (parseStart (n + 1))
+    ∧ Le3 (parseCont n) (parseCont (n + 1)) := by
+  intro n
+  induction n with
+  | zero =>
+    refine ⟨?_, ?_, ?_⟩
+    · intro ts r h; simp [parseTerm] at h
+    · intro m ts r h; simp [parseStart] at h
+    · intro m l ts r h; simp [parseCont] at h
+  | succ n ih =>
+    obtain ⟨ihT, ihS, ihC⟩ := ih
+    refine ⟨?_, ?_, ?_⟩
+    · intro ts r h
+      rw [parseTerm] at h ⊢
+      exact termStep_mono ihT ihS ts r h
+    · intro m ts r h
+      rw [parseStart] at h ⊢
+      exact startStep_mono ihT ihC m ts r h
+    · intro m l ts r h
+      rw [parseCont] at h ⊢
+      exact contStep_mono ihS ihC m l ts r h
+
+theorem parseTerm_mono {n N : Nat} (h : n ≤ N) {ts r} (hp : parseTerm n ts = some r) :
+    parseTerm N ts = some r := by
+  induction h with
+  | refl => exact hp
+  | step _ ih => exact (parse_mono_succ _).1 _ _ ih
+
+theorem parseStart_mono {n N : Nat} (h : n ≤ N) {m ts r} (hp : parseStart n m ts = some r) :
+    parseStart N m ts = some r := by
+  induction h with
+  | refl => exact hp
+  | step _ ih => exact (parse_mono_succ _).2.1 _ _ _ ih
+
+theorem parseCont_mono {n N : Nat} (h : n ≤ N) {m l ts r} (hp : parseCont n m l ts = some r) :
+    parseCont N m l ts = some r := by
+  induction h with
+  | refl => exact hp
+  | step _ ih => exact (parse_mono_succ _).2.2 _ _ _ _ ih
+
+/-! ### where the continuation loop stops -/
+
+/-- the next token is the end, a `)`, or an operator of left priority at most `f` -/
+def Follow (f : Nat) : List Tok → Prop
+  | [] => True
+  | .rparen :: _ => True
+  | .op o :: _ => lp o ≤ f
+  | _ => False
+
+theorem parseCont_pos {n m l ts r} (h : parseCont n m l ts = some r) : 1 ≤ n := by
+  cases n with
+  | zero => simp [parseCont] at h
+  | succ n => omega
+
+/-- the loop at minimum precedence `k` stops in front of a follower of priority below `k` -/
+theorem parseCont_stop {f k : Nat} {rest : List Tok} (hf : Follow f rest) (hk : f < k)
+    (n : Nat) (e : OpTree) : parseCont (n + 1) k e rest = some (e, rest) := by
+  rw [parseCont]
+  unfold contStep
+  match rest, hf with
+  | [], _ => rfl
+  | .rparen :: _, _ => rfl
+  | .op o :: _, h =>
+    have : ¬ k ≤ lp o := by simp [Follow] at h; omega
+    simp [this]
+
+/-- nothing that may follow at priority 0 lets any loop continue -/
+theorem parseCont_stop0 {rest : List Tok} (hf : Follow 0 rest) (n k : Nat) (e : OpTree) :
+    parseCont (n + 1) k e rest = some (e, rest) := by
+  rw [parseCont]
+  unfold contStep
+  match rest, hf with
+  | [], _ => rfl
+  | .rparen :: _, _ => rfl
+  | .op o :: _, h =>
+    have := lp_pos o
+    simp [Follow] at h
+    omega
+
+theorem parseCont_stop0_eq {rest : List Tok} (hf : Follow 0 rest) {n k : Nat} {e : OpTree} {res}
+    (h : parseCont n k e rest = some res) : res = (e, rest) := by
+  cases n with
+  | zero => simp [parseCont] at h
+  | succ n => rw [parseCont_stop0 hf] at h; exact (Option.some.inj h).symm
+
+/-- a parenthesised body: `( body )` parses as the body's tree, then the loop goes on -/
+theorem paren_wrap {K n N m : Nat} {body rest : List Tok} {e : OpTree} {res}
+    (hbody : parseStart K 0 (body ++ .rparen :: rest) = some (e, .rparen :: rest))
+    (hcont : parseCont n m e rest = some res) (hK : K + 2 ≤ N) (hn : n + 1 ≤ N) :
+    parseStart N m (.lparen :: (body ++ .rparen :: rest)) = some res := by
+  obtain ⟨N', rfl⟩ : ∃ N', N = N' + 2 := ⟨N - 2, by omega⟩
+  rw [parseStart]
+  unfold startStep
+  have h1 : parseTerm (N' + 1) (.lparen :: (body ++ .rparen :: rest)) = some (e, rest) := by
+    rw [parseTerm]
+    unfold termStep
+    simp [parseStart_mono (by omega : K ≤ N') hbody]
+  rw [h1]
+  exact parseCont_mono (by omega) hcont
+
+/-! ### fuel needed for a rendered tree (a generous bound) -/
+
+def cost : OpTree → Nat
+  | .atom _ => 2
+  | .neg e => cost e + 6
+  | .not e => cost e + 6
+  | .bin _ l r => cost l + cost r + 6
+  | .assign _ e => cost e + 6
+
+/-- the two renderings of unary minus -/
+theorem render_neg (m f : Nat) (e : OpTree) :
+    (∃ x, e = .atom (.id x) ∧ render m f (.neg e) = [.op .Subtract, .id x])
+    ∨ render m f (.neg e) = [.op .Subtract, .lparen] ++ render 0 0 e ++ [.rparen] := by
+  cases e with
+  | atom a =>
+    cases a with
+    | id x => exact Or.inl ⟨x, rfl, rfl⟩
+    | num k => exact Or.inr rfl
+    | negNum k => exact Or.inr rfl
+  | neg e => exact Or.inr rfl
+  | not e => exact Or.inr rfl
+  | bin o l r => exact Or.inr rfl
+  | assign x e => exact Or.inr rfl
+
+theorem render_not (m f : Nat) (e : OpTree) :
+    render m f (.not e)
+      = if f = 0 then .not :: render 0 0 e else [.lparen, .not] ++ render 0 0 e ++ [.rparen] := rfl
+
+theorem render_assign (m f x : Nat) (e : OpTree) :
+    render m f (.assign x e)
+      = if f = 0 then [.id x, .assign] ++ render 0 0 e
+        else [.lparen, .id x, .assign] ++ render 0 0 e ++ [.rparen] := rfl
+
+theorem render_bin (m f : Nat) (o : OpTok) (l r : OpTree) :
+    render m f (.bin o l r)
+      = if m ≤ lp o ∧ f < rp o then render m (lp o) l ++ [.op o] ++ render (rp o) f r
+        else [.lparen] ++ (render 0 (lp o) l ++ [.op o] ++ render (rp o) 0 r) ++ [.rparen] := rfl
+
+theorem cost_le (e : OpTree) : ∀ m f, cost e ≤ 6 * (render m f e).length := by
+  induction e with
+  | atom a => intro m f; cases a <;> simp [render, cost]
+  | neg e ih =>
+    intro m f
+    have := ih 0 0
+    rcases render_neg m f e with ⟨x, rfl, h⟩ | h
+    · rw [h]; simp [cost]
+    · rw [h]; simp [cost]; omega
+  | not e ih =>
+    intro m f
+    have := ih 0 0
+    rw [render_not]; simp only [cost]; split <;> simp <;> omega
+  | bin o l r ihl ihr =>
+    intro m f
+    rw [render_bin]; simp only [cost]
+    split
+    · have := ihl m (lp o); have := ihr (rp o) f; simp; omega
+    · have := ihl 0 (lp o); have := ihr (rp o) 0; simp; omega
+  | assign x e ih =>
+    intro m f
+    have := ih 0 0
+    rw [render_assign]; simp only [cost]; split <;> simp <;> omega
 
 end KotoVerif.C01
